@@ -311,7 +311,7 @@ func paramFieldID(name string) (uint32, bool) {
 	return uint32(v), err == nil
 }
 
-var otherParamIDs = []uint32{0x2a, 0x2b, 0x75, 0x76, 0x77, 0x79, 0x7a, 0x7b, 0x7c, 0xf000, 0xf364, 0xf365, 0xffffffff, 0x1000}
+var otherParamIDs = []uint32{0, 0x2a, 0x2b, 0x75, 0x76, 0x77, 0x79, 0x7a, 0x7b, 0x7c, 0xf000, 0xf364, 0xf365, 0xffffffff, 0x1000}
 
 func genParams(t *rapid.T, label string) (model.TerminalParamDetails, int) {
 	var d model.TerminalParamDetails
